@@ -36,7 +36,8 @@ static void heap(void)
     unsigned k;
     for (k = 0; k < NP; ++k)
     {
-        ND(unsigned, nx, u32); ND(unsigned, pv, u32);
+        unsigned nx, pv;
+        ND_ARR(nx, NX, k, u32); ND_ARR(pv, PV, k, u32); /* native replay: the link tables of the counterexample */
         ASSUME(nx < NP && pv < NP);
         NX[k] = nx; PV[k] = pv;
         P[k]->next = P[nx]; P[k]->prev = P[pv];
@@ -262,7 +263,8 @@ static void sheap(void)
     {
         if (k != SNULL)
         {
-            ND(unsigned, nx, u32);
+            unsigned nx;
+            ND_ARR(nx, SX, k, u32);
             ASSUME(nx <= SNULL);
             SX[k] = nx; S[k]->next = S[nx];
         }
@@ -339,18 +341,18 @@ void h_slist(void)
 void h_slist_mov(void)
 {
     sheap();
-    ND(unsigned, at, u32);
-    ASSUME(at < NS || at == SLH);
-    unsigned f = SX[SMH], an = SX[at];
-    /* M is a well-formed list; at is a node of L's chain (or its sentinel) and not a node of M */
-    ASSUME(ONM0(SMH) && SX[TM] == SNULL && ONL0(at) && at != TM);
-    a_slist_mov(&SM, &SL, S[at]);
+    ND(unsigned, ati, u32);
+    ASSUME(ati < NS || ati == SLH);
+    unsigned f = SX[SMH], an = SX[ati];
+    /* M is a well-formed list; at (index ati) is a node of L's chain (or its sentinel) and not a node of M */
+    ASSUME(ONM0(SMH) && SX[TM] == SNULL && ONL0(ati) && ati != TM);
+    a_slist_mov(&SM, &SL, S[ati]);
     if (f == SNULL) { ASSERT(sframe(0, 0, 0), "slist mov: moving an empty list changes nothing"); }
     else
     {
-        ASSERT(S[at]->next == S[f] && S[TM]->next == S[an], "slist mov: the whole chain is spliced in behind at, its last node linked to at's old successor");
-        ASSERT(SL.tail == (an == SNULL ? S[TM] : S[TL]) && (an != SNULL || SL.tail->next == A_NULL), "slist mov: the tail moves to the moved chain's last node exactly when it was appended at the end");
-        ASSERT(sframe(B(at) | B(TM), 1, 0), "slist mov: nothing else written (the source header keeps stale links)");
+        ASSERT(S[ati]->next == S[f] && S[TM]->next == S[an], "slist mov: the whole chain is spliced in behind at, its last node linked to at's old successor");
+        ASSERT(SL.tail == (an == SNULL ? S[TM] : S[TL]) && (an != SNULL || SL.tail->next == A_NULL), "slist mov: the tail moves to the moved chain's last node exactly when it was appended ati the end");
+        ASSERT(sframe(B(ati) | B(TM), 1, 0), "slist mov: nothing else written (the source header keeps stale links)");
     }
     VERIF_CANARY();
 }
